@@ -211,11 +211,15 @@ class TmplGen:
             key = (fam if fam not in ("data-", "data:") else "data", camel(name.lower()) if fam == "data-" else name)
             if fam in ("bind:", "catch:", "mut-bind:", "capture-bind:", "capture-catch:", "capture-mut-bind:"):
                 key = ("ev", name)   # one binding per event name and element (the runtime keys dynamic listeners by name)
-            if key in used or (fam in ("plain", "model:") and (("plain", name) in used or ("model:", name) in used)):
+            # (two attributes that name the same component property after dash-to-camel — `a-B` and `aB`, `x-1` and `x1` — give that property two values:
+            # which one a fresh creation shows is an accident of attribute order, and an update re-applies only the dynamic one; such templates denote
+            # nothing definite and are not generated: thorough tier, seed 7, C06 / C07)
+            pname = camel(name) if fam in ("plain", "model:") else name
+            if key in used or (fam in ("plain", "model:") and (("plain", pname) in used or ("model:", pname) in used)):
                 continue
             used.add(key)
             if fam in ("plain", "model:"):
-                used.add(("plain", name)); used.add(("model:", name))
+                used.add(("plain", pname)); used.add(("model:", pname))
             res.append((fam, name, v))
         return res
 
